@@ -19,7 +19,21 @@ use std::collections::HashMap;
 pub struct Machine {
     rt: CoreRuntime,
     windows: Vec<(String, u32, u32)>,
+    /// bus ranges read at snapshot points / right after a load (region boundaries)
+    probes: Vec<(String, u32, u32)>,
+    /// (offset, stride) of the strided bus sample over the whole external space; stride 0 = none
+    sweep: (u32, u32),
 }
+
+/// LCD controller windows: never probed (kept identical to the Python driver's probe set).
+const LCD_WINDOWS: [(u32, u32); 2] = [(0x02000, 0x02FFF), (0x0A000, 0x0AFFF)];
+const SWEEP_REGIONS: [(&str, u32, u32); 5] = [
+    ("low", 0x00000, 0x3FFFF),
+    ("card", 0x40000, 0x4FFFF),
+    ("mid", 0x50000, 0xB7FFF),
+    ("ram", 0xB8000, 0xBFFFF),
+    ("rom", 0xC0000, 0xFFFFF),
+];
 
 #[derive(Default)]
 pub struct State {
@@ -113,16 +127,64 @@ fn new_machine(req: &Value) -> Result<Machine, String> {
             rt.set_reg(k, v.as_u64().unwrap_or(0) as u32);
         }
     }
-    let mut windows = Vec::new();
-    if let Some(ws) = cfg.get("windows").and_then(|v| v.as_array()) {
-        for w in ws {
-            let name = w.get(0).and_then(|v| v.as_str()).unwrap_or("w").to_string();
-            let start = w.get(1).and_then(|v| v.as_u64()).unwrap_or(0) as u32;
-            let len = w.get(2).and_then(|v| v.as_u64()).unwrap_or(0) as u32;
-            windows.push((name, start, len));
+    let ranges = |key: &str| -> Vec<(String, u32, u32)> {
+        let mut out = Vec::new();
+        if let Some(ws) = cfg.get(key).and_then(|v| v.as_array()) {
+            for w in ws {
+                let name = w.get(0).and_then(|v| v.as_str()).unwrap_or("w").to_string();
+                let start = w.get(1).and_then(|v| v.as_i64()).unwrap_or(0).max(0) as u32;
+                let len = w.get(2).and_then(|v| v.as_u64()).unwrap_or(0) as u32;
+                out.push((name, start, len));
+            }
+        }
+        out
+    };
+    let windows = ranges("windows");
+    let probes = ranges("probes");
+    let sweep = cfg
+        .get("sweep")
+        .and_then(|v| v.as_array())
+        .map(|a| {
+            (
+                a.first().and_then(|v| v.as_u64()).unwrap_or(0) as u32,
+                a.get(1).and_then(|v| v.as_u64()).unwrap_or(0) as u32,
+            )
+        })
+        .unwrap_or((0, 0));
+    Ok(Machine { rt, windows, probes, sweep })
+}
+
+/// Bus reads around region boundaries + strided sample per region, hashed (see c16_py.PyMachine.bus_probes).
+fn bus_probes(m: &Machine, out: &mut Map<String, Value>) {
+    let r = m.rt.memory.memory_read_count();
+    let w = m.rt.memory.memory_write_count();
+    let lcd = |a: u32| LCD_WINDOWS.iter().any(|(lo, hi)| a >= *lo && a <= *hi);
+    for (name, start, len) in &m.probes {
+        let mut bytes = Vec::with_capacity(*len as usize);
+        let end = (*start + *len).min(0x100000);
+        for a in *start..end {
+            if !lcd(a) {
+                bytes.push(m.rt.memory.load(a, 8).unwrap_or(0) as u8);
+            }
+        }
+        out.insert(name.clone(), json!(fnv64(&bytes)));
+    }
+    let (off, stride) = m.sweep;
+    if stride > 0 {
+        for (name, lo, hi) in SWEEP_REGIONS.iter() {
+            let mut bytes = Vec::new();
+            let mut a = lo + ((off + stride - (lo % stride)) % stride);
+            while a <= *hi {
+                if !lcd(a) {
+                    bytes.push(m.rt.memory.load(a, 8).unwrap_or(0) as u8);
+                }
+                a += stride;
+            }
+            out.insert(format!("bus:sweep-{name}"), json!(fnv64(&bytes)));
         }
     }
-    Ok(Machine { rt, windows })
+    m.rt.memory.set_memory_counts(r, w);
+    m.rt.memory.clear_overlay_logs();
 }
 
 fn apply_events(m: &mut Machine, evs: Option<&Value>) {
@@ -262,7 +324,7 @@ fn diag(m: &Machine) -> Value {
             card.push_str(&format!("{}:{};", ov.name, fnv64(d)));
         }
     }
-    json!({
+    let mut d = json!({
         "power_state": power_name(rt.state.power_state()),
         "timer_enabled": t.enabled,
         "mti_period": t.mti_period,
@@ -286,7 +348,9 @@ fn diag(m: &Machine) -> Value {
         "overlay_data": card,
         "fast_mode": rt.fast_mode,
         "ext_hash": fnv64(rt.memory.external_slice()),
-    })
+    });
+    bus_probes(m, d.as_object_mut().unwrap());
+    d
 }
 
 fn step_once(m: &mut Machine) -> Option<String> {
